@@ -236,6 +236,12 @@ impl Ctx {
             };
             self.rep.evaluations += 1;
             let ctx = format!("declaration {}, line {:?}", d.id, hc.line);
+            if matches!(hc.about, About::NotHelp) {
+                if dispatched != 1 {
+                    self.found("C12", "non-help-line-intercepted", hc.kind, d.id, &hc.line, format!("{}: not a help request (help option only counts before `--`, exact spellings only) but the command processor was called {} time(s); output {:?}", ctx, dispatched, rows));
+                }
+                continue;
+            }
             if dispatched > 0 {
                 self.found("C12", "help-reached-handler", hc.kind, d.id, &hc.line, format!("{}: the command processor was called {} time(s)", ctx, dispatched));
                 continue;
@@ -765,6 +771,8 @@ pub enum About {
     List,
     Path(Vec<String>),
     Unknown,
+    /// looks similar but is not a help request: must reach the command processor
+    NotHelp,
 }
 
 #[derive(Clone, Debug)]
@@ -843,6 +851,15 @@ pub fn gen_help_lines(d: &Decl, rng: &mut Rng, reps: usize) -> Vec<HelpCase> {
             out.push(HelpCase { line: render_tokens(&t, rng), kind: "help-option", about: About::Path(p.clone()) });
         }
     }
+    // near misses: the help option after `--`, other spellings, `help` as an argument value
+    for p in paths.iter().take(6) {
+        let base = p.join(" ");
+        for tail in ["-- -h", "-- --help", "-H", "--helpx", "--hel", "-- help"] {
+            out.push(HelpCase { line: format!("{} {}", base, tail), kind: "not-help", about: About::NotHelp });
+        }
+    }
+    out.push(HelpCase { line: "helpx".into(), kind: "not-help", about: About::NotHelp });
+    out.push(HelpCase { line: "Help".into(), kind: "not-help", about: About::NotHelp });
     // unknown and hidden names
     for bad in ["zz9", "Help"] {
         out.push(HelpCase { line: format!("help {}", bad), kind: "unknown", about: About::Unknown });
@@ -888,6 +905,7 @@ pub fn judge_help(d: &Decl, hc: &HelpCase, rows: &[String]) -> Vec<(&'static str
     let mut fails: Vec<(&'static str, String, String)> = vec![];
     let wrows: Vec<Vec<String>> = rows.iter().map(|r| words(r)).collect();
     match &hc.about {
+        About::NotHelp => {}
         About::Unknown => {
             if !(rows.len() == 1 && rows[0] == "error: unknown command") {
                 fails.push(("unknown-command-message", hc.kind.to_string(), "expected exactly the line `error: unknown command`".into()));
